@@ -221,6 +221,7 @@ SUM_MC = {
                  ("US2", "FALSE", "TRUE", "TRUE", 0, "TRUE", "TRUE"),
                  ("US3", "TRUE", "TRUE", "TRUE", 1, "TRUE", "TRUE")],
 }
+SUM_MC_AMBIG = {"quick": [], "thorough": [("US2", "TRUE", "FALSE", "FALSE", 0, "FALSE", "TRUE")]}
 # (universe, HasBefore, HasAfter, NotFoundToo, MaxErr, Truncate, Replay, num)
 SUM_GEN = {
     "quick": [("US1", "TRUE", "TRUE", "FALSE", 1, "FALSE", "TRUE", 250),
@@ -241,10 +242,10 @@ SUM_GEN = {
 }
 
 
-def _sum_consts(uni, hb, ha, nf, maxerr, trunc, replay, logs="FALSE"):
+def _sum_consts(uni, hb, ha, nf, maxerr, trunc, replay, logs="FALSE", ambig="FALSE"):
     return [("U", "<- " + uni), ("HasBefore", "= " + hb), ("HasAfter", "= " + ha),
             ("NotFoundToo", "= " + nf), ("MaxErr", f"= {maxerr}"), ("Truncate", "= " + trunc),
-            ("Replay", "= " + replay), ("Logs", "= " + logs)]
+            ("Replay", "= " + replay), ("Logs", "= " + logs), ("Ambig", "= " + ambig)]
 
 
 def run_summarize_engine(tier):
@@ -255,9 +256,9 @@ def run_summarize_engine(tier):
         return cached
     t0 = time.time()
     mcs = []
-    for n, c in enumerate(SUM_MC[tier]):
+    for n, c in enumerate(SUM_MC[tier] + SUM_MC_AMBIG[tier]):
         cfg = os.path.join(WORK, f"MC_Summarize_{n}.cfg")
-        _cfg(cfg, "Spec", _sum_consts(*c),
+        _cfg(cfg, "Spec", _sum_consts(*c, ambig="TRUE" if c in SUM_MC_AMBIG[tier] else "FALSE"),
              invs=("StepCountersAgree", "ScenariosAgree", "VerdictAgrees", "ExactWithoutRetries", "OneSummary"))
         r = tlc("MC_Summarize.tla", cfg, workers=8, timeout=3000, tag=f"mcsum{n}")
         require_ok(r, f"MC_Summarize {c}")
@@ -276,7 +277,7 @@ def run_summarize_engine(tier):
     for n, c in enumerate(SUM_GEN[tier]):
         cfg = os.path.join(WORK, f"Gen_Summarize_{n}.cfg")
         logs = c[8] if len(c) > 8 else "FALSE"
-        _cfg(cfg, "Spec", _sum_consts(*c[:7], logs=logs), invs=("Dump",))
+        _cfg(cfg, "Spec", _sum_consts(*c[:7], logs=logs, ambig=logs), invs=("Dump",))
         r = tlc("Gen_Summarize.tla", cfg, workers=1,
                 simulate={"num": c[7], "depth": 300, "seed": seed() * 1000 + 77 + n},
                 timeout=1800, tag=f"gensum{n}")
@@ -586,7 +587,9 @@ def check_c14(tier):
     for n, c in enumerate(C14_GEN[tier]):
         cfg = os.path.join(WORK, f"Gen_Reporters_{n}.cfg")
         _cfg(cfg, "Spec", _sum_consts(c[0], c[1], c[2], c[3], c[4], c[5], "FALSE",
-                                      logs="TRUE" if c[7].get("logs") else "FALSE"), invs=("Dump",))
+                                      logs="TRUE" if c[7].get("logs") else "FALSE",
+                                      ambig="TRUE" if c[7].get("ambig", c[7].get("logs")) else "FALSE"),
+             invs=("Dump",))
         r = tlc("Gen_Summarize.tla", cfg, workers=1,
                 simulate={"num": c[6], "depth": 300, "seed": seed() * 1000 + 140 + n},
                 timeout=1800, tag=f"genrep{n}")
